@@ -1049,9 +1049,33 @@ class AnnToAssign(ast.NodeTransformer):
         return ast.copy_location(ast.Assign(targets=[node.target], value=node.value), node)
 
 
+class YieldToAppend(ast.NodeTransformer):
+    """a generator function (cfg["generator"] = element type) denotes the list of the values it yields, in order:
+    `yield e` is `yielded.append(e)` on an implicit list variable that starts empty and is the function's result.
+    (Laziness is not represented: the configuration's author uses this only where the consumer's observable behaviour
+    is a function of that list - e.g. islice / list over a generator without side effects.)"""
+
+    def visit_Expr(self, node):
+        if isinstance(node.value, ast.Yield) and node.value.value is not None:
+            call = ast.Call(func=ast.Attribute(value=ast.Name(id="yielded", ctx=ast.Load()), attr="append", ctx=ast.Load()),
+                            args=[node.value.value], keywords=[])
+            return ast.copy_location(ast.Expr(value=call), node)
+        return node
+
+
 def translate(source_text, cfg):
     tree = ast.parse(source_text)
     f = find_function(tree, cfg["func"], cfg.get("cls"))
+    if cfg.get("generator"):
+        if any(isinstance(n, (ast.YieldFrom, ast.Return)) for n in ast.walk(f)):
+            raise Unsupported("generator with `yield from` or `return`")
+        f = YieldToAppend().visit(f)
+        if any(isinstance(n, ast.Yield) for n in ast.walk(f)):
+            raise Unsupported("`yield` used as an expression")
+        cfg = dict(cfg)
+        cfg["vars"] = dict(cfg["vars"], yielded="list " + cfg["generator"])
+        cfg["predefine"] = dict(cfg.get("predefine", {}), yielded="[]")
+        cfg["implicit_return"] = "{yielded}"
     f = AnnToAssign().visit(f)
     if cfg.get("attr_vars"):
         f = AttrVars(cfg["attr_vars"]).visit(f)
